@@ -19,15 +19,17 @@ ecdsa = [{'mpint': '*', 'name': 'x'}, {'mpint': '*', 'name': 'y'}]
 eddsa = [{'raw': '*', 'name': 'public key'}]
 dsa = [{'u': 1, 'name': 'T'}, {'mpint': 20, 'name': 'Q'}, {'mpint': '*', 'name': 'P'}, {'mpint': '*', 'name': 'G'}, {'mpint': '*', 'name': 'Y'}]
 entry('DnsRecordDnskey', 'RFC 4034 2.1 DNSKEY RDATA: flags(2) protocol(1) algorithm(1) public key; key formats RFC 3110 (RSA), RFC 6605 (ECDSA), RFC 5933 (GOST), RFC 8080 (EdDSA), RFC 2536 (DSA)',
-      [{'flags': 2, 'name': 'flags'}, {'u': 1, 'name': 'protocol'}, {'u': 1, 'name': 'algorithm'},
+      [{'flags': 2, 'name': 'flags', 'attr': 'flags'}, {'u': 1, 'name': 'protocol', 'attr': 'protocol'}, {'u': 1, 'name': 'algorithm', 'attr': 'algorithm'},
        {'alt': [rsa, [{'alt': [ecdsa, [{'alt': [eddsa, dsa]}]]}]]}])
-entry('DnsRecordDs', 'RFC 4034 5.1 DS RDATA: key tag(2) algorithm(1) digest type(1) digest', [{'u': 2}, {'u': 1}, {'u': 1}, {'raw': '*'}])
+entry('DnsRecordDs', 'RFC 4034 5.1 DS RDATA: key tag(2) algorithm(1) digest type(1) digest', [{'u': 2, 'attr': 'key_tag'}, {'u': 1, 'attr': 'algorithm'}, {'u': 1, 'attr': 'digest_type'}, {'raw': '*', 'attr': 'digest'}])
 entry('DnsRrTypePrivate', 'RFC 6895 3.1 private use RR TYPE 0xff00-0xfffe: 16 bit', [{'u': 2}])
 entry('DnsNameUncompressed', 'RFC 1035 3.1 domain name: sequence of labels (length octet + octets) ended by the zero length root label',
       [{'repeat': [{'lp': 1, 'body': [{'text': 'idna'}]}]}, {'u': 1, 'name': 'root label'}])
 entry('DnsRecordRrsig', 'RFC 4034 3.1 RRSIG RDATA: type covered(2) algorithm(1) labels(1) original TTL(4) expiration(4) inception(4) key tag(2) signer name, signature',
-      [{'u': 2, 'name': 'type covered'}, {'u': 1}, {'u': 1}, {'u': 4}, {'ts': 4}, {'ts': 4}, {'u': 2}, S('DnsNameUncompressed'), {'raw': '*'}])
-entry('DnsRecordMx', 'RFC 1035 3.3.9 MX RDATA: preference(2) exchange', [{'u': 2}, S('DnsNameUncompressed')])
+      [{'u': 2, 'name': 'type covered', 'attr': 'type_covered'}, {'u': 1, 'attr': 'algorithm'}, {'u': 1, 'attr': 'labels'}, {'u': 4, 'attr': 'original_ttl'},
+       {'ts': 4, 'attr': 'signature_expiration'}, {'ts': 4, 'attr': 'signature_inception'}, {'u': 2, 'attr': 'key_tag'},
+       dict(S('DnsNameUncompressed'), attr='signers_name'), {'raw': '*', 'attr': 'signature'}])
+entry('DnsRecordMx', 'RFC 1035 3.3.9 MX RDATA: preference(2) exchange', [{'u': 2, 'attr': 'priority'}, dict(S('DnsNameUncompressed'), attr='exchange')])
 entry('DnsRecordTxt', 'RFC 1035 3.3.14 TXT RDATA: one or more <character-string>s (length octet + octets)', [{'repeat': [{'lp': 1, 'body': [{'text': 'ascii'}]}]}])
 
 REG = collections.OrderedDict()
